@@ -574,6 +574,41 @@ _AMEND = [
      "wrap results modulo the machine size (a wrap written with tests must "
      "move each coordinate by its own dimension),"),
 ]
+# clauses added after round 7 (DESIGN.md 9.13)
+_NAMELINK = (" Calls of package functions in the property's packages pass "
+             "every argument that shares a parameter's name to that "
+             "parameter, and forward the optional parameters they hold "
+             "under the same name (NAMELINK).")
+for _k in ("C01", "C02", "C03", "C04", "C05", "C06", "C07", "C09", "C10",
+           "C12", "C14", "C17", "C18", "C20"):
+    CHECKS[_k]["text"] += _NAMELINK
+CHECKS["C01"]["text"] += (" The placement helpers change none of their "
+                          "arguments in place (C17-R1, re-run); the table "
+                          "stored for a chip is the minimiser's result "
+                          "(C04-R5).")
+CHECKS["C02"]["text"] += (" A caller-supplied chip order is filtered to the "
+                          "machine's chips (R1); the placement helpers "
+                          "change none of their arguments in place "
+                          "(C17-R1).")
+CHECKS["C09"]["text"] += (" The per-core read-back address is computed per "
+                          "call from the chip and core asked about "
+                          "(C07-R4, re-run).")
+CHECKS["C14"]["text"] += (" Per-core field addresses use nothing kept on "
+                          "the controller between calls (C07-R4, re-run).")
+CHECKS["C13"]["text"] += " __exit__ closes the view on every path (R5)."
+CHECKS["C15"]["text"] += (" A length guard in front of a decoder refuses "
+                          "only datagrams shorter than the header (R2).")
+CHECKS["C17"]["text"] += (" No function draws from a generator object kept "
+                          "at module level (R4).")
+CHECKS["C18"]["text"] += (" Every public command with contextual parameter "
+                          "names is wrapped by the decorator (R4); the "
+                          "context overlay does not depend on the value "
+                          "currently held (R1).")
+CHECKS["C19"]["text"] += (" spinn5_eth_coords leaves none of its loops "
+                          "early (R2).")
+CHECKS["C20"]["text"] += (" The struct file's field-code table keeps width "
+                          "and signedness (C14-R6, re-run).")
+CHECKS["C12"]["text"] += (" Every target core reaches add_core (R4).")
 for _k, _old, _new in _AMEND:
     assert _old in CHECKS[_k]["text"], (_k, _old)
     CHECKS[_k]["text"] = CHECKS[_k]["text"].replace(_old, _new, 1)
